@@ -399,3 +399,30 @@ SPECS["C08"] = {
     "assumptions": ["operator table and statement templates as listed in the harness", "string alphabet as stated"],
     "outside": ["deeper nesting", "arbitrary Unicode in strings", "the in-place format tool's file handling (FormatFiles calls Parse+PrettyPrint and writes the result)"],
 }
+
+_C03 = ["interpreter/common.go", "interpreter/c03.go"]
+SPECS["C03"] = {
+    "explanation": "Source text assembled from symbolically chosen operators (19 binary, 3 prefix), optional explicit parentheses and line breaks goes through the real "
+                   "lexer, parser, Validate and Eval with variables of symbolic kind (number = arbitrary float64, bool, 1-byte string, list, null) and symbolic content; "
+                   "the outcome is compared with a reference evaluator written from the language reference: same value (float results as SMT term equality) or same error "
+                   "class naming the same operand. Cases the reference leaves undefined (mixed-kind comparisons, like on non-strings) assert nothing.",
+    "level_text": "bounded: all operator pairs x groupings x operand kinds within the kind bound, contents fully symbolic (float64 full width); prefix operators on either side",
+    "level_note": "trusts go/ssa, gosym (FP theory; identical terms fold, others solved by z3 with a 10 s cap), the reference evaluator in the harness",
+    "harnesses": [
+        {"name": "H1-pairs-group%d" % g, "pkg": "interpreter", "files": _C03, "fn": "VerifC03Pairs",
+         "what": "x OP1 y OP2 z with at least one operator of group %d (0 arithmetic, 1 comparison, 2 boolean, 3 string/list), kinds number/bool/string" % g, "reach": ["evaluated", "compared"],
+         "quick": {"params": {"KINDS": {0: 1, 1: 1, 2: 2, 3: 4}[g], "GROUP": g}, "unwind": 60, "wall_s": 900, "timeout_ms": 3000} if g in (0, 2) else None,
+         "thorough": {"params": {"KINDS": 3 if g != 3 else 4, "GROUP": g}, "unwind": 60, "wall_s": 3000, "timeout_ms": 20000}}
+        for g in (0, 1, 2, 3)
+    ] + [
+        {"name": "H1-pairs-arith-smallnum", "pkg": "interpreter", "files": _C03, "fn": "VerifC03Pairs",
+         "what": "arithmetic group with numbers k/2, k in -32..31 (decidable operand domain)", "reach": ["evaluated", "compared"],
+         "quick": None,
+         "thorough": {"params": {"KINDS": 2, "GROUP": 0, "SMALLNUM": 1}, "unwind": 60, "wall_s": 3000, "timeout_ms": 30000}},
+        {"name": "H1-prefix", "pkg": "interpreter", "files": _C03, "fn": "VerifC03Prefix",
+         "what": "PRE x OP y / x OP PRE y over 3 prefix x 19 binary operators", "reach": ["evaluated", "compared"],
+         "quick": {"params": {"KINDS": 3}, "unwind": 60, "wall_s": 900}, "thorough": {"params": {"KINDS": 5}, "unwind": 60, "wall_s": 3000}},
+    ],
+    "assumptions": ["strings of one byte over {a,b,.}", "lists of two numbers"],
+    "outside": ["operator triples", "regexp semantics beyond the alphabet", "string interpolation inside operands (C14)", "assignment (loosest) is covered by the templates of C04/C05"],
+}
